@@ -74,6 +74,7 @@ type RunResult struct {
 	WallNS   int64
 	MaxLevel int
 	NTables  int
+	FlusherAlive bool // the flusher task of a closed instance had not exited when Close returned
 }
 
 // ------------------------------------------------------------------ silent logger
@@ -107,6 +108,10 @@ type Runner struct {
 	open  bool
 	ack   *AckModel
 	phase string
+
+	commits  int          // successful commits with writes so far
+	waiting  map[int]bool // clients parked in a "wait" op
+	finished map[int]bool // clients that ran to the end of their program
 }
 
 var errClosure = errors.New("closure failed on purpose")
@@ -236,7 +241,7 @@ func (r *Runner) gotID(v []byte, found bool) string {
 }
 
 // doOp executes one operation on an open transaction.
-func (r *Runner) doOp(txn *originium.Txn, op Op) OpRec {
+func (r *Runner) doOp(client int, txn *originium.Txn, op Op) OpRec {
 	rec := OpRec{K: op.K, Key: op.Key, Val: op.Val, Pad: op.Pad}
 	key := op.Key
 	if strings.HasSuffix(op.K, "-empty") {
@@ -245,6 +250,28 @@ func (r *Runner) doOp(txn *originium.Txn, op Op) OpRec {
 	if op.K == "pause" {
 		r.s.Yield("pause")
 		rec.Call, rec.Ret = r.s.Seq(), r.s.Seq()
+		return rec
+	}
+	if op.K == "wait" {
+		// stay open until op.Pad more commits happened (or nobody is left to commit)
+		target := r.commits + op.Pad
+		r.waiting[client] = true
+		r.s.WaitUntil("wait", func() bool {
+			if r.commits >= target {
+				return true
+			}
+			for ci := range r.c.Clients {
+				if ci != client && !r.finished[ci] && !r.waiting[ci] {
+					return false
+				}
+			}
+			return true
+		})
+		r.waiting[client] = false
+		rec.Call, rec.Ret = r.s.Seq(), r.s.Seq()
+		if r.commits >= target {
+			r.res.Probes["long_reader_spans"]++
+		}
 		return rec
 	}
 	r.s.APIBegin(op.K)
@@ -274,7 +301,7 @@ func (r *Runner) runTxn(client int, t *TxnProg) *TxnRec {
 			rec.Began = true
 			r.s.APIEnd()
 			for _, op := range t.Ops {
-				rec.Ops = append(rec.Ops, r.doOp(txn, op))
+				rec.Ops = append(rec.Ops, r.doOp(client, txn, op))
 			}
 			r.s.APIBegin("end")
 			rec.EndCall = r.s.Seq()
@@ -309,7 +336,7 @@ func (r *Runner) runTxn(client int, t *TxnProg) *TxnRec {
 		rec.Began = true
 		r.s.APIEnd()
 		for _, op := range t.Ops {
-			rec.Ops = append(rec.Ops, r.doOp(txn, op))
+			rec.Ops = append(rec.Ops, r.doOp(client, txn, op))
 		}
 		r.s.APIBegin("end")
 		rec.EndCall = r.s.Seq()
@@ -386,6 +413,9 @@ func (r *Runner) ackBegin(client int, rec *TxnRec) {
 }
 
 func (r *Runner) ackEnd(client int, committed bool) {
+	if committed {
+		r.commits++
+	}
 	if r.ack == nil {
 		return
 	}
@@ -448,6 +478,13 @@ func (r *Runner) runClient(ci int) {
 	_ = ok
 }
 
+func boolInt(b bool) int {
+	if b {
+		return 1
+	}
+	return 0
+}
+
 func countTables(dir string) (n, maxLevel int) {
 	ents, _ := os.ReadDir(dir)
 	for _, e := range ents {
@@ -471,7 +508,7 @@ func RunCase(t *testing.T, c *Case, trace bool) *RunResult {
 	}
 	defer os.RemoveAll(dir)
 	res := &RunResult{Case: c, Probes: Probes{}}
-	r := &Runner{c: c, dir: dir, vals: map[string]int{}, res: res,
+	r := &Runner{c: c, dir: dir, vals: map[string]int{}, res: res, waiting: map[int]bool{}, finished: map[int]bool{},
 		hist: &History{Clients: make([][]Event, len(c.Clients))}}
 	res.Hist = r.hist
 	opt := simrt.Options{
@@ -509,6 +546,7 @@ func RunCase(t *testing.T, c *Case, trace bool) *RunResult {
 				ci := ci
 				s.Go(fmt.Sprintf("client%d", ci), true, func() {
 					r.runClient(ci)
+					r.finished[ci] = true
 					left--
 				})
 			}
@@ -517,9 +555,33 @@ func RunCase(t *testing.T, c *Case, trace bool) *RunResult {
 		if res.Fatal != "" {
 			return
 		}
-		if c.Final && r.open {
+		if c.Final && r.open && !c.Reopen {
 			r.guard("client-panic", func() {
 				r.drain()
+				n, ml := countTables(dir)
+				res.NTables, res.MaxLevel = n, ml
+				rec := r.sweep(0, 1000000)
+				r.hist.Final = append(r.hist.Final, Event{Kind: "txn", Txn: rec})
+			})
+		}
+		if c.Reopen && r.open && res.Fatal == "" {
+			// C15: Close with whatever is pending, reopen at once, read everything back
+			r.guard("client-panic", func() {
+				res.Probes["close_with_pending_flush"] += boolInt(!r.db.VerifIdle())
+				if !r.closeDB() {
+					return
+				}
+				for _, tk := range s.Tasks() {
+					if !tk.Client && tk.Tag == r.inst && !tk.Done() && strings.Contains(tk.Name, "Open") {
+						res.FlusherAlive = true
+					}
+				}
+				s.Sleep(1)
+				r.phase = "recovery"
+				if !r.openDB(0) {
+					return
+				}
+				r.phase = ""
 				n, ml := countTables(dir)
 				res.NTables, res.MaxLevel = n, ml
 				rec := r.sweep(0, 1000000)
